@@ -59,3 +59,91 @@ def judge_cases(results):
 def describe(c):
     return {'id': c['id'], 'tab': c['tab'], 'cfg': c['cfg'], 'kept': c['kept'], 'final': c['final'],
             'history_rows': len(c['events'])}
+
+
+DESIGN_QUICK = ['MC_Carver_quick.cfg', 'MC_Carver_dev_quick.cfg', 'MC_Carver_kruskal_quick.cfg']
+DESIGN_THOROUGH = ['MC_Carver_quick.cfg', 'MC_Carver_thorough.cfg', 'MC_Carver_nan_thorough.cfg',
+                   'MC_Carver_dev_thorough.cfg', 'MC_Carver_kruskal_thorough.cfg']
+
+
+def design_runs(ctx: Ctx, invariants_of_interest):
+    """Model-check Carver.tla (all invariants are checked; the evidence names the ones that carry
+    this property)."""
+    cfgs = DESIGN_QUICK if ctx.tier == 'quick' else DESIGN_THOROUGH
+    for cfg in cfgs:
+        r = tlc.run_mc('MC_Carver', cfg, timeout=3600, coverage=(ctx.tier == 'quick'), heap='12g')
+        ctx.add_design(r)
+        if not r.ok:
+            raise tlc.MachineryError(
+                f'design counterexample in Carver.tla ({cfg}): {r.violated}; the design model is wrong or the '
+                f'design breaks the property -- concretize before reporting:\n{r.counterexample[:1]}\n{r.counterexample[-1:]}')
+    ctx.notes['design_invariants'] = invariants_of_interest
+
+
+def carver_pipeline(ctx: Ctx, prefix: str, *, n_random_quick=500, n_random_thorough=20000, exhaustive=True,
+                    nontrivial=lambda case, info: True):
+    """Generate + run + judge; attribute clauses starting with `prefix` to ctx.pid."""
+    from ..drivers import carve_gen
+    items = []
+    total_domain = 0
+    if exhaustive:
+        specs, total = carve_gen.exhaustive_specs(ctx.tier, ctx.seed)
+        cspecs, ctotal = carve_gen.exhaustive_cont_specs(ctx.tier, ctx.seed)
+        total_domain = total + ctotal
+        items = [(f'ex{i}', s) for i, s in enumerate(specs)] + [(f'exc{i}', s) for i, s in enumerate(cspecs)]
+    results = run_specs('spec', items) if items else []
+    nrand = n_random_quick if ctx.tier == 'quick' else n_random_thorough
+    base = ctx.seed * 1_000_003
+    results += run_specs('random', [(f'rnd{base + i}', base + i) for i in range(nrand)])
+    flat, jr, skipped, fits = judge_cases(results)
+    ctx.traces += len(flat)
+    ctx.evaluations += len(fits)
+    ctx.states += jr.distinct
+    ctx.transitions += jr.generated
+    ctx.notes['fits'] = len(fits)
+    ctx.notes['feature_cases_judged'] = len(flat)
+    ctx.notes['cases_skipped'] = skipped
+    ctx.notes['enumerated_domain_size'] = total_domain
+    outcomes = {}
+    for _, _, info in fits:
+        outcomes[info['outcome']] = outcomes.get(info['outcome'], 0) + 1
+    ctx.notes['fit_outcomes'] = outcomes
+    clause_counts = {}
+    for i, c in enumerate(flat):
+        info = jr.info.get(i, {})
+        if nontrivial(c, info):
+            ctx.nontrivial.add(jhash([c['tab'], c['cfg']]))
+        for cl in jr.verdicts[i]:
+            clause_counts[cl] = clause_counts.get(cl, 0) + 1
+            if cl.startswith('Conf_'):
+                ctx.nonconf(f'{cl} in {c["id"]}', sample=describe(c))
+            elif cl.startswith(prefix):
+                ctx.violations.append(Violation(
+                    clause=cl,
+                    what=f'{c["id"]}: table={c["tab"]["tr"]} nan={c["tab"]["trnan"]} cfg={c["cfg"]} kept={c["kept"]} '
+                         f'final={c["final"]} -> {jr.verdicts[i]}',
+                    sig={'driver': 'carve.feature_cases', 'clause': cl, 'carver': c['meta']['args']['spec']['carver'],
+                         'measure': c['cfg']['measure'], 'kind': c['tab']['kind']},
+                    replay=c['meta'], detail={'case': describe(c), 'clauses': jr.verdicts[i]}))
+    ctx.notes['clause_counts_all_properties'] = clause_counts
+    for c in flat[:2] + flat[-1:]:
+        ctx.add_sample(describe(c))
+    return flat, jr, fits
+
+
+def replay_case(ctx: Ctx, rep: dict, prefix: str):
+    from ..core import use_repo
+    use_repo()
+    from ..drivers import carve
+    cases, info, _ = carve.feature_cases(rep['args']['spec'], 'replay')
+    cases = [c for c in cases if not c.get('skip') and (rep.get('feature') is None or c['feature'] == rep.get('feature'))]
+    jr = tlc.judge('CarverTrace', cases, strip=STRIP)
+    ctx.traces += len(cases)
+    ctx.evaluations += 1
+    for i, c in enumerate(cases):
+        for cl in jr.verdicts[i]:
+            if cl.startswith(prefix):
+                ctx.violations.append(Violation(clause=cl, what=f'replayed case still fails: {jr.verdicts[i]}',
+                                                sig={'driver': 'carve.feature_cases', 'clause': cl,
+                                                     'carver': rep['args']['spec']['carver'], 'measure': c['cfg']['measure'],
+                                                     'kind': c['tab']['kind']}, replay=rep))
